@@ -13,6 +13,10 @@ import (
 type c03Case struct {
 	Routes []rRoute `json:"routes"`
 	Req    rReq     `json:"req"`
+	// Warm > 0: only Routes[:Warm] are registered at first; the request (and an OPTIONS and an
+	// unregistered-method request to the same path) is served; then the remaining routes are
+	// registered.  The answers must describe what is registered NOW.
+	Warm int `json:"warm,omitempty"`
 }
 
 func c03Wire(routes []rRoute, o rObs) string {
@@ -28,7 +32,7 @@ func c03Wire(routes []rRoute, o rObs) string {
 func c03Run(ci any) Result {
 	c := ci.(*c03Case)
 	var cur rObs
-	e := rEcho(c.Routes, &cur)
+	e := rEchoWarm(c.Routes, c.Warm, []rReq{c.Req, {Method: http.MethodOptions, Path: c.Req.Path}, {Method: "X-UNREGISTERED", Path: c.Req.Path}}, &cur)
 	rServe(e, &cur, c.Req)
 	first := cur
 	res := Result{
@@ -36,6 +40,9 @@ func c03Run(ci any) Result {
 		Obs: c03Wire(c.Routes, first),
 	}
 	tags := []string{"outcome-" + string(first.Kind)}
+	if c.Warm > 0 && c.Warm < len(c.Routes) {
+		tags = append(tags, "requests-before-later-registrations")
+	}
 	fail := func(s string) {
 		if res.Oracle == "" {
 			res.Oracle = s
@@ -123,7 +130,11 @@ func c03Gen(r *rand.Rand, tier string) []any {
 			if r.Intn(3) == 0 {
 				m = []string{"OPTIONS", "PATCH", "HEAD", "X-UNREGISTERED", "TRACE"}[r.Intn(5)]
 			}
-			out = append(out, &c03Case{Routes: routes, Req: rReq{Method: m, Path: rGenPath(r, routes)}})
+			cs := &c03Case{Routes: routes, Req: rReq{Method: m, Path: rGenPath(r, routes)}}
+			if len(routes) > 1 && r.Intn(3) == 0 {
+				cs.Warm = 1 + r.Intn(len(routes)-1)
+			}
+			out = append(out, cs)
 		}
 	}
 	return out
@@ -132,9 +143,17 @@ func c03Gen(r *rand.Rand, tier string) []any {
 func c03Shrink(ci any) []any {
 	c := ci.(*c03Case)
 	var out []any
-	for _, rs := range rShrinkRoutes(c.Routes) {
+	for i, rs := range rShrinkRoutes(c.Routes) {
 		d := *c
 		d.Routes = rs
+		if i < c.Warm {
+			d.Warm--
+		}
+		out = append(out, &d)
+	}
+	if c.Warm > 0 {
+		d := *c
+		d.Warm = 0
 		out = append(out, &d)
 	}
 	for _, p := range rShrinkString(c.Req.Path) {
